@@ -288,9 +288,9 @@ func c08Run(c c08Cell, values int) (ds []keyed, info string) {
 		if vt != c.src {
 			if vt.Size() > c.src.Size() {
 				ds = append(ds, keyed{key("layout"), fmt.Sprintf("the view type %s (%d bytes) is larger than the source %s (%d bytes): its tail lies outside the value", vt.Name(), vt.Size(), c.src.Name(), c.src.Size())})
-				return ds, outcome
+				// (the part of the view that does lie inside the value is still held to (a) and (b) below)
 			}
-			for i := 0; i < vt.NumField(); i++ {
+			for i := 0; i < vt.NumField() && vt.Size() <= c.src.Size(); i++ {
 				vf := vt.Field(i)
 				ok := false
 				for j := 0; j < c.src.NumField(); j++ {
